@@ -53,6 +53,7 @@ type Dir struct {
 	Cap       int  // >0: socket buffer size: a write blocks while this many bytes are pending (a slow or stalled reader pushes back)
 	closed    bool // writer side closed: reader gets EOF after draining
 	broken    bool
+	hb        vrt.SyncClock // happens-before: a write publishes, a read takes over
 }
 
 // Link is one established connection; A is the dialing side, B the accepting side.
@@ -143,6 +144,7 @@ func (c *conn) Read(b []byte) (int, error) {
 	n := copy(b, c.rd.buf)
 	c.rd.buf = c.rd.buf[n:]
 	c.rd.Read += n
+	vrt.HBAcquire(&c.rd.hb)
 	return n, nil
 }
 
@@ -159,6 +161,7 @@ func (c *conn) Write(b []byte) (int, error) {
 		return 0, errors.New("write: broken pipe")
 	}
 	d := c.wr
+	vrt.HBRelease(&d.hb)
 	if d.Cap > 0 && len(d.buf) >= d.Cap {
 		rt.Block(func() bool { return d.Cap <= 0 || len(d.buf) < d.Cap || c.closed || d.closed })
 		if c.closed || d.closed {
